@@ -174,7 +174,29 @@ def pairsOf (cse : Case) (sol : List String) : List String :=
           else ((c.attrs.find? (·.1 == dd.attr)).map (·.2)).getD "absent"
         s!"{d}:{c.id}[{shown}]")
 
+/-- SD-JWT credentials under `limit_disclosure: required` (format of harness/cmd/corr/c20sd.go): the claims of the
+    credential subject as (path, value) -/
+def sdClaims (spec : String) : List (String × String) :=
+  (spec.splitOn ";").flatMap fun part =>
+    match part.splitOn ":" with
+    | [o, kvs] => (kvs.splitOn ",").filterMap fun kv =>
+        match kv.splitOn "=" with
+        | [k, v] => some (if o == "t" then k else o ++ "." ++ k, v)
+        | _ => none
+    | _ => []
+
+/-- the credential the verifier gets back for the descriptor shows exactly the requested fields with their issued values;
+    a requested field the credential does not have means the credential does not match -/
+def handleSD (spec req : String) : String :=
+  let claims := sdClaims spec
+  let wanted := (req.splitOn ",").eraseDups
+  if wanted.all fun p => claims.any (·.1 == p) then
+    "ok shown=" ++ ",".intercalate (sortStrings (wanted.map fun p => p ++ "=" ++ ((claims.find? (·.1 == p)).map (·.2)).getD ""))
+  else "nocreds"
+
 def handle (input : String) : String :=
+  if input.startsWith "sd|" then
+    (match input.splitOn "|" with | [_, spec, req] => handleSD spec req | _ => "bad-input") else
   match parseCase input with
   | none => "bad-input"
   | some cse =>
@@ -199,6 +221,14 @@ def sublists : List String → List (List String)
       pair in its descriptor map really credMatches, and the verifier accepts it and returns exactly those descriptors;
     * "no credentials" is only reported when no non-empty subset of the matchable descriptors satisfies the requirement -/
 def oracle (input implOut : String) : String :=
+  if input.startsWith "sd|" then
+    (match input.splitOn "|" with
+     | [_, spec, req] =>
+       let want := handleSD spec req
+       if implOut == want then implOut
+       else if want == "nocreds" then "CREDENTIAL-WITHOUT-A-REQUESTED-FIELD-PRESENTED"
+       else "LIMITED-DISCLOSURE-SHOWS-OTHER-FIELDS-THAN-REQUESTED: expected " ++ want
+     | _ => "bad-input") else
   match parseCase input with
   | none => "bad-input"
   | some cse =>
